@@ -990,6 +990,7 @@ var detDenyCalls = map[string]string{
 	"runtime.NumCPU": "machine property", "runtime.NumGoroutine": "scheduler state", "runtime.GOMAXPROCS": "machine property", "runtime.ReadMemStats": "runtime state",
 	"(*sync.Map).Range": "sync.Map iteration order", "(reflect.Value).MapKeys": "map order via reflection", "(reflect.Value).MapRange": "map order via reflection",
 }
+
 // zoneMethods: methods of time.Time whose result depends on the time's location.
 var zoneMethods = map[string]bool{"(time.Time).AddDate": true, "(time.Time).Date": true, "(time.Time).Day": true, "(time.Time).Month": true, "(time.Time).Year": true,
 	"(time.Time).YearDay": true, "(time.Time).Weekday": true, "(time.Time).Hour": true, "(time.Time).Minute": true, "(time.Time).Clock": true, "(time.Time).ISOWeek": true,
